@@ -182,7 +182,7 @@ func vpNewImgWorld() *vpImgWorld {
 	iw.b = &BloomSearchEngine{
 		config: BloomSearchEngineConfig{BloomFalsePositiveRate: 0.01, RowDataCompression: CompressionNone, Tokenizer: BasicWhitespaceLowerTokenizer,
 			MaxRowGroupRows: 1000, MaxRowGroupBytes: 1 << 20, MaxBufferedRows: 1000, MaxBufferedBytes: 1 << 20, MaxBufferedTime: time.Hour,
-			MaxFileSize: 1 << 30, MaxFilesToMergePerOperation: 10, MinMaxIndexes: []string{"v"}, PartitionFunc: vpPartitionByP},
+			MaxFileSize: 1 << 30, MaxFilesToMergePerOperation: 10, MinMaxIndexes: []string{"u", "v"}, PartitionFunc: vpPartitionByP},
 		metaStore: iw.meta, dataStore: iw.store, logger: slog.New(slog.DiscardHandler),
 	}
 	vpIndexCalls, vpBuildCalls = nil, nil
@@ -190,10 +190,12 @@ func vpNewImgWorld() *vpImgWorld {
 }
 
 type vpRowSpec struct {
-	id   string
-	part string
-	v    int
-	hasV bool
+	id    string
+	part  string
+	v     int
+	hasV  bool
+	uKind int // the other configured minmax key "u": 0 absent, 1 a non-numeric value, 2 the number uVal
+	uVal  int
 }
 
 func (r vpRowSpec) toMap() map[string]any {
@@ -201,15 +203,28 @@ func (r vpRowSpec) toMap() map[string]any {
 	if r.hasV {
 		m["v"] = r.v
 	}
+	switch r.uKind {
+	case 1:
+		m["u"] = "none"
+	case 2:
+		m["u"] = r.uVal
+	}
 	return m
 }
 
 // text is the JSON the row is stored as (keys sorted, as encoding/json writes maps).
 func (r vpRowSpec) text() string {
-	if r.hasV {
-		return `{"id":"` + r.id + `","p":"` + r.part + `","v":` + vpItoa(r.v) + `}`
+	s := `{"id":"` + r.id + `","p":"` + r.part + `"`
+	switch r.uKind {
+	case 1:
+		s += `,"u":"none"`
+	case 2:
+		s += `,"u":` + vpItoa(r.uVal)
 	}
-	return `{"id":"` + r.id + `","p":"` + r.part + `"}`
+	if r.hasV {
+		s += `,"v":` + vpItoa(r.v)
+	}
+	return s + "}"
 }
 
 func vpItoa(v int) string {
